@@ -8,7 +8,14 @@ on the real cocls::publisher<int>/subscriber<int> by harness/publisher_replay.cp
 
 The specification describes the *repaired* behaviour (Fix* = TRUE); the unrepaired variants of the
 defects found in the pinned tree are kept in the specification and must violate the properties
-(self-test of the properties, thorough tier)."""
+(self-test of the properties, thorough tier).
+
+conc_replay(): spec/Publisher/PublisherConc.tla wraps the same critical sections into threads (publisher
+thread; one thread per subscriber using blocking next(), next_ready() or a coroutine that the publisher
+resumes on its own thread); its behaviours are replayed by harness/publisher_conc_replay.cpp on real
+threads under the controlled scheduler at lock grain (virtual std::mutex), which binds the lock
+discipline: which state changes happen inside which critical section, nothing guarded is touched
+outside, wake-ups happen after the unlock.  Also called from C03."""
 import contextlib
 import os
 import time
